@@ -190,6 +190,10 @@ func runC13(c *Ctx) {
 	} else {
 		rl := loops[0]
 		statusNB := Cmp("status==NotBlocked", func(v ssa.Value) bool {
+			// status, ok := RevertStatus[n] or plainly RevertStatus[n] (a missing entry reads as the zero status, which is not NotBlocked)
+			if lk, ok := Strip(v).(*ssa.Lookup); ok && !lk.CommaOk {
+				return IsFieldLoad(lk.X, fRS)
+			}
 			ex, ok := Strip(v).(*ssa.Extract)
 			if !ok || ex.Index != 0 {
 				return false
